@@ -559,7 +559,7 @@ MANIFEST = dict(
          'Receiver: one inductive step from an arbitrary state satisfying the window invariant (Engine B, all init < 2^32, all w, n) - a packet is accepted iff '
          'it fits the advertised window, also while paused; the window is replenished to >= init/2 after a delivery - plus CrossHair pause/resume steps and '
          '3-4 event histories from the initial state. Stream reader pauses exactly at one window of buffered data. Not a proof of liveness: only '
-         '"the next step is enabled and the window is replenished" is checked.',
+         '"the next step is enabled and the window is replenished" is checked. WINDOW_ADJUST is honoured after the peer EOF; write-side pause/resume follows the high/low water marks exactly.',
     note='Assumes: peer max packet size >= 1 once a channel is open (established by obligation C10.open_params); session callbacks, logger and the '
          'connection below the channel are recording stubs; buffers are abstracted to lengths in the Engine B kernel (validated against the real '
          'functions on concrete vectors each run). Bounds per obligation are in the evidence file. Trusted: CrossHair, z3, the harness oracles.')
